@@ -135,7 +135,7 @@ func editResync(r *Run) {
 	if r.SweepCase >= 0 {
 		c = c16Cache[r.Tier][r.SweepCase]
 	} else {
-		ss := []int{4, 8, 12, 16, 20, 36, 60, 64, 100, 256, 500, 1000}
+		ss := []int{4, 8, 12, 16, 20, 36, 60, 64, 100, 256, 500, 1000, 2048, 4096}
 		c.S = ss[t.Draw(len(ss), "S")]
 		if t.Bool(1, 500, "huge-window") {
 			// window sizes just above multiples of 16 KiB
@@ -252,6 +252,7 @@ func editResync(r *Run) {
 	// geometry
 	touched := 0
 	bLost := false
+	siblingMissing := false
 	var edited []byte
 	desc := ""
 	switch {
@@ -367,6 +368,14 @@ func editResync(r *Run) {
 	} else {
 		r.Probe("len-not-multiple-of-S")
 	}
+	if r.SweepCase < 0 && c.Rename == 0 && !bLost && t.Bool(1, 6, "sibling-missing") {
+		// the other protected file is missing altogether while this one is
+		// edited: all of its slices need recovery blocks, none of this
+		// file's surviving slices may be lost over it
+		siblingMissing = true
+		touched += nB
+		r.Probe("edited-file-beside-a-missing-one")
+	}
 	if bLost && len(b)%c.S != 0 {
 		// b.dat's short final slice is followed by more data where it now
 		// sits (zero padding counts only at end of file): one block for it
@@ -400,7 +409,7 @@ func editResync(r *Run) {
 		d.Remove(w.Path(0))
 	default:
 		d.Put(w.Path(0), edited)
-		if bLost {
+		if bLost || siblingMissing {
 			d.Remove(w.Path(1))
 		}
 	}
